@@ -799,4 +799,83 @@ theorem truth_ok (n : CNode) (hn : ∀ lab, eval2 .wrapping fp n lab = .ok (img 
 
 end arms4
 
+/-! ## The induction -/
+
+section induction
+/-- the value of an expression, as the folder holds it: the image of `x`, which lies in the range of the C11 type -/
+def Folds (fp : FpEnv) (e : CExpr) (x : Int) : Prop :=
+  (typeOf e).inRange x = true ∧ ∀ label, eval2 .wrapping fp (elabE e) label = .ok (img x)
+
+theorem promote_inRange (t : ITy) (x : Int) (h : t.inRange x = true) : t.promote.inRange x = true := by
+  cases t <;> simp only [ITy.promote] <;> rng <;> omega
+
+theorem common_comm (a b : ITy) : ITy.common a b = ITy.common b a := by cases a <;> cases b <;> rfl
+
+variable (fp : FpEnv)
+
+theorem cast_ok {e : CExpr} {x : Int} (t : ITy) (h : Folds fp e x) :
+    ∀ lab, eval2 .wrapping fp (mkCast (elabE e) (descr t)) lab = .ok (img (t.convert x)) := by
+  intro lab
+  have hw := inRange_wide _ x h.1
+  exact eval2_mkCast fp (elabE e) t x lab (h.2 lab) hw (by rw [elab_ty]; exact descr_not_flonum _)
+
+theorem fold_lit (t : ITy) (v x : Int) (h : Spec.Const.eval (.lit t v) = some x) : Folds fp (.lit t v) x := by
+  simp only [Spec.Const.eval] at h
+  split at h
+  · cases h; rename_i hin
+    refine ⟨hin, fun lab => ?_⟩
+    simp only [elabE]
+    rw [eval2_NUM _ _ _ _ _ _ _ _ _ _ (descr_not_flonum t)]
+    by_cases hb : t = .bool
+    · subst hb; rng
+      have : v = 0 ∨ v = 1 := by omega
+      rcases this with h | h <;> subst h <;> rfl
+    · simp only [pure, Except.pure, wrap_convert t hb, convert_id t _ hin]
+  · cases h
+
+theorem fold_neg {e : CExpr} {x v : Int} (h : Folds fp e x) (hv : Spec.Const.arith (typeOf e).promote (-x) = some v) :
+    Folds fp (.un .neg e) v := by
+  have hp := promote_inRange _ x h.1
+  have hw := promote_wide (typeOf e)
+  have ⟨h1, h2⟩ := arm_result _ hw.ne_bool (-(img x)) (-x) v (img_neg x) hv
+  refine ⟨h2, fun lab => ?_⟩
+  simp only [elabE, mkPromoted, elab_ty, gct_int]
+  rw [eval2_NEG _ _ _ _ _ _ _ _ _ _ (descr_not_flonum _)]
+  simp only [cast_ok fp _ h, convert_id _ _ hp, bind, Except.bind, pure, Except.pure, negS, ovf, h1]
+
+theorem fold_bitnot {e : CExpr} {x : Int} (h : Folds fp e x) :
+    Folds fp (.un .bitnot e) ((typeOf e).promote.convert ((~~~ (BitVec.ofInt 64 x)).toInt)) := by
+  have hp := promote_inRange _ x h.1
+  have hw := promote_wide (typeOf e)
+  refine ⟨convert_inRange _ _, fun lab => ?_⟩
+  simp only [elabE, mkPromoted, elab_ty, gct_int]
+  rw [eval2_BITNOT _ _ _ _ _ _ _ _ _ _ (descr_not_flonum _)]
+  simp only [cast_ok fp _ h, convert_id _ _ hp, bind, Except.bind, pure, Except.pure]
+  rw [← wrap_convert _ hw.ne_bool, ← img_of_toInt]
+
+theorem fold_lognot {e : CExpr} {x : Int} (h : Folds fp e x) : Folds fp (.un .lognot e) (b2z (x == 0)) := by
+  refine ⟨by cases (x == 0) <;> rfl, fun lab => ?_⟩
+  simp only [elabE, un]
+  rw [eval2_NOT _ _ _ _ _ _ _ _ _ _ (show isFlonum tyInt = false from rfl)]
+  rw [truth_ok fp x (elabE e) h.2 (inRange_wide _ x h.1) (by rw [elab_ty]; exact descr_not_flonum _)]
+  simp only [bind, Except.bind, pure, Except.pure, b2i_castS]
+  have : (!(x != 0)) = (x == 0) := by cases hx : (x == 0) <;> simp_all [bne]
+  rw [this]; exact congrArg Except.ok (wrap_int01 _)
+
+theorem fold_plus {e : CExpr} {x : Int} (h : Folds fp e x) : Folds fp (.un .plus e) x := by
+  have hp := promote_inRange _ x h.1
+  refine ⟨hp, fun lab => ?_⟩
+  simp only [elabE, elab_ty]
+  split
+  · rename_i hc
+    have ht : (typeOf e).promote = .i32 := by
+      generalize typeOf e = t at hc ⊢; cases t <;> simp_all [descr, isInteger] <;> rfl
+    have := cast_ok fp .i32 h lab
+    rw [ht] at hp
+    rw [convert_id _ _ hp] at this; exact this
+  · exact h.2 lab
+
+
+end induction
+
 end ChibiVerif.ConstEvalLemmas
